@@ -51,17 +51,13 @@ def r13_1(ctx, rc):
                      key=key)
     # the API hands the member's name to the recorder
     n = 0
-    for F in ctx.R.public_instance_methods:
-        for call in prog.calls_in(F):
-            for g in prog.resolve_call(call, F):
-                if isinstance(g, Func) and g.is_ctor_call and \
-                        g.cls_for_ctor in ctx.R.record_classes and \
-                        'suboperations' not in ctx.R.record_fields[
-                            g.cls_for_ctor]:
-                    if call.args and isinstance(call.args[0], ast.Constant) \
-                            and call.args[0].value == 'read':
+    from .c01 import _api_records
+    if True:
+        if True:
+            for F, call, nm, lst in _api_records(ctx):
+                if True:
+                    if isinstance(nm, ast.Constant) and nm.value == 'read':
                         n += 1
-                        lst = call.args[1]
                         key = 'read observation in %s carries the mode ' \
                             'name' % F.qualname
                         ok = isinstance(lst, ast.List) and len(lst.elts) == 2 \
